@@ -585,6 +585,8 @@ pub struct ReplayFile {
     pub expect: String,
     /// FNV-1a of the case as rendered when the file was written (absent in hand-built files); corpus replay refuses a file that no longer decodes to it
     pub case: String,
+    /// corpus witness that needs the whole watchdog time (a hang): replayed concurrently with the generated search
+    pub slow: bool,
 }
 
 pub fn load_replay(path: &std::path::Path) -> Result<ReplayFile, String> {
@@ -605,6 +607,7 @@ pub fn load_replay(path: &std::path::Path) -> Result<ReplayFile, String> {
         sig: j["sig"].as_str().unwrap_or("").to_string(),
         expect: j["expect"].as_str().unwrap_or("pass").to_string(),
         case: j["case_fnv1a"].as_str().unwrap_or("").to_string(),
+        slow: j["slow"].as_bool().unwrap_or(false),
     })
 }
 
@@ -649,6 +652,26 @@ pub fn budget_of(p: &Part, thorough: bool) -> Budget {
     }
 }
 
+/// a corpus case's verdict: the witness of a listed finding failing with its signature is a KNOWN-FINDING line;
+/// any other failure that no listed signature covers is a violation
+fn judge_corpus_verdict(id: &str, f: &std::path::Path, v: &Verdict, my: &[Finding], known_lines: &mut Vec<String>, rep: &mut Report, violations: &mut i32) {
+    let rel = f.strip_prefix(verif_root()).unwrap_or(f).to_string_lossy().into_owned();
+    let witness_of = my.iter().find(|k| k.kind == "known" && k.witness == rel);
+    match (v, witness_of) {
+        (Verdict::Fail { sig, .. }, Some(k)) if findings::sig_matches(&k.sig, sig) => {
+            known_lines.push(format!("KNOWN-FINDING: property={} {} [{}]", id, k.text, k.id));
+        }
+        (Verdict::Fail { sig, detail }, _) => {
+            if is_known(my, sig).is_none() {
+                *violations += 1;
+                rep.line(&format!("VIOLATION property={} replay={}", id, f.display()));
+                rep.line(&format!("  corpus case failed: sig={} {}", sig, first_line(detail)));
+            }
+        }
+        _ => {}
+    }
+}
+
 /// Returns the process exit code.
 pub fn run_property(prop: &Property, thorough: bool, seed: u64, rep: &mut Report, slot_dir: Option<std::path::PathBuf>) -> i32 {
     let t0 = Instant::now();
@@ -661,6 +684,7 @@ pub fn run_property(prop: &Property, thorough: bool, seed: u64, rep: &mut Report
 
     // 1. corpus replay (regressions of fixed defects, witnesses of known findings)
     let mut corpus_n = 0;
+    let mut slow_handles: Vec<(std::path::PathBuf, std::thread::JoinHandle<(Verdict, String)>)> = Vec::new();
     let cdir = verif_root().join("corpus").join(prop.id);
     let mut files: Vec<_> = std::fs::read_dir(&cdir)
         .map(|d| d.filter_map(|e| e.ok()).map(|e| e.path()).filter(|p| p.extension().map(|x| x == "json").unwrap_or(false)).collect())
@@ -675,6 +699,23 @@ pub fn run_property(prop: &Property, thorough: bool, seed: u64, rep: &mut Report
             }
         };
         corpus_n += 1;
+        if rf.slow {
+            // started now, judged after the generated search (the module bounds such a case itself, in a child process)
+            let id = prop.id;
+            let path = f.clone();
+            slow_handles.push((
+                f.clone(),
+                std::thread::Builder::new()
+                    .stack_size(64 << 20)
+                    .spawn(move || {
+                        let prop = crate::registry().into_iter().find(|p| p.id == id).unwrap();
+                        let rf = load_replay(&path).unwrap();
+                        replay_case(&prop, &rf, thorough)
+                    })
+                    .unwrap(),
+            ));
+            continue;
+        }
         // visible to the monitor: a corpus case that hangs or kills the process is isolated like any other
         let cslot = Slot::open(&env.slot_dir, 0);
         cslot.publish(prop.parts.iter().position(|p| p.name == rf.part).unwrap_or(0), rf.exh, &rf.data);
@@ -684,24 +725,7 @@ pub fn run_property(prop: &Property, thorough: bool, seed: u64, rep: &mut Report
             rep.line(&format!("harness: corpus file {} no longer decodes to its recorded case (generator changed) — regenerate it", f.display()));
             return 2;
         }
-        let rel = f.strip_prefix(verif_root()).unwrap_or(f).to_string_lossy().into_owned();
-        let witness_of = my.iter().find(|k| k.kind == "known" && k.witness == rel);
-        match (&v, witness_of) {
-            (Verdict::Fail { sig, .. }, Some(k)) if findings::sig_matches(&k.sig, sig) => {
-                known_lines.push(format!("KNOWN-FINDING: property={} {} [{}]", prop.id, k.text, k.id));
-            }
-            (Verdict::Fail { sig, detail }, _) => {
-                if let Some(id) = is_known(&my, sig) {
-                    // a corpus file that fails with a listed signature but is not the witness itself
-                    let _ = id;
-                } else {
-                    violations += 1;
-                    rep.line(&format!("VIOLATION property={} replay={}", prop.id, f.display()));
-                    rep.line(&format!("  corpus case failed: sig={} {}", sig, first_line(detail)));
-                }
-            }
-            _ => {}
-        }
+        judge_corpus_verdict(prop.id, f, &v, &my, &mut known_lines, rep, &mut violations);
     }
     for l in &known_lines {
         rep.line(l);
@@ -806,6 +830,20 @@ pub fn run_property(prop: &Property, thorough: bool, seed: u64, rep: &mut Report
         s2.nontrivial = stats.nontrivial.iter().map(|h| h ^ salt).collect();
         total.merge(s2);
     }
+    // slow corpus witnesses started before the search
+    for (f, h) in slow_handles {
+        let n0 = known_lines.len();
+        match h.join() {
+            Ok((v, _)) => judge_corpus_verdict(prop.id, &f, &v, &my, &mut known_lines, rep, &mut violations),
+            Err(_) => {
+                rep.line(&format!("harness: replay thread of {} panicked", f.display()));
+                health_fail = true;
+            }
+        }
+        for l in &known_lines[n0..] {
+            rep.line(l);
+        }
+    }
     for f in &failures {
         violations += 1;
         let p = write_replay(prop, f, false);
@@ -892,5 +930,10 @@ fn write_evidence(
     });
     let dir = verif_root().join("evidence");
     let _ = std::fs::create_dir_all(&dir);
-    let _ = std::fs::write(dir.join(format!("{}.json", prop.id)), serde_json::to_string_pretty(&ev).unwrap());
+    // a run under another build profile keeps the main evidence file
+    let name = match std::env::var("VERIF_PROFILE") {
+        Ok(p) if !p.is_empty() => format!("{}.{}.json", prop.id, p),
+        _ => format!("{}.json", prop.id),
+    };
+    let _ = std::fs::write(dir.join(name), serde_json::to_string_pretty(&ev).unwrap());
 }
